@@ -261,6 +261,26 @@ Remove(pid) ==
   /\ gone' = gone \ {pid}
   /\ UNCHANGED <<nadd, lastH>>
 
+\* An acknowledgement that arrives after a re-initialisation (not clean) BEFORE its in-flight entry has been replayed (a
+\* client that acknowledges an identifier of its previous connection right after CONNACK; readHandle and the poller run
+\* concurrently).  Two outcomes satisfy the statement: the acknowledgement is ignored (the entry is replayed, the client
+\* acknowledges again), or the entry is removed and never replayed.  Nothing else may change - in particular the replay
+\* of the other entries and the queued messages behind them.  eff chooses the outcome; the replayer follows the branch the
+\* implementation takes.
+Unreplayed(s) == IF s.drained THEN {} ELSE {s.q[i].pid : i \in (s.cur + 1)..Len(s.q)} \ {0}
+
+RemoveEarly(pid, eff) ==
+  /\ Online /\ ~st.closed
+  /\ pid \in Unreplayed(st)
+  /\ LET i == MinOf({j \in (st.cur + 1)..Len(st.q) : st.q[j].pid = pid})
+         r == IF eff = "noop" THEN [st |-> st, out |-> Out0]
+              ELSE [st |-> [st EXCEPT !.q = RemoveAt(st.q, i)], out |-> [Out0 EXCEPT !.dQ = -1, !.dI = -1, !.rm = st.q[i].m]]
+     IN /\ st' = r.st
+        /\ Count(r)
+        /\ fate' = IF r.out.rm = 0 THEN fate ELSE [fate EXCEPT ![r.out.rm] = "acked"]
+        /\ last' = [op |-> "rm", pid |-> pid, out |-> r.out, early |-> eff]
+  /\ UNCHANGED <<nadd, lastH, gone>>
+
 \* a PUBREC is only owed for a QoS 2 PUBLISH that was handed out
 Replace(pid) ==
   /\ Online
@@ -295,6 +315,7 @@ Next == /\ \/ \E it \in Menu : Add(it)
            \/ \E ids \in IdSeqs(FreeIds) : Read(ids)
            \/ \E n \in RINs : ReadInflight(n)
            \/ \E pid \in Ids : Remove(pid)
+           \/ \E pid \in Ids, eff \in {"noop", "removed"} : RemoveEarly(pid, eff)
            \/ \E pid \in Ids : Replace(pid)
            \/ \E c \in BOOLEAN : InitOp(c)
            \/ Close
